@@ -506,13 +506,13 @@ class Ratfun(object):
         zero_pairs, zero_singles = pair_conjugates(zeros)
 
         result1 = 1
-        num = 1
+        num = One
         for zeros, order in zero_pairs.items():
             for m in range(order):
                 num *= (var**2 - zeros[0] * var - zeros[1]
                         * var + zeros[0] * zeros[1]).simplify()
 
-        den = 1
+        den = One
         for poles, order in pole_pairs.items():
             for m in range(order):
                 den *= (var**2 - poles[0] * var - poles[1]
